@@ -479,11 +479,32 @@ class Gen:
             if r.random() < 0.5:
                 pre.append(("assign", lv, ("num", r.randint(0, 3))))      # bound before the loop: readable after it
             hi = ("num", r.randint(0, 6)) if r.random() < 0.6 else self.iexpr(1)
+            bound_vars = []
+            iv = self.assignable("int")
+            if iv and r.random() < 0.35:
+                # the end expression reads variables that the body assigns (CPython fixes the trip count at loop entry)
+                v = r.choice(iv)
+                q = r.random()
+                if q < 0.4:
+                    hi = ("name", v)
+                elif q < 0.7:
+                    hi = ("bin", r.choice(["Add", "Sub"]), ("name", v), ("num", r.randint(0, 3)))
+                else:
+                    hi = ("bin", "Add", ("name", v), ("name", r.choice(iv)))
+                bound_vars = [v]
+                self.features.add("for-bound-assigned-in-body")
             args = [hi] if r.random() < 0.6 else [("num", r.randint(0, 3)) if r.random() < 0.7 else self.iexpr(1), hi]
+            if bound_vars and len(args) == 2 and args[0][0] != "num" and r.random() < 0.5:
+                args[0] = ("name", bound_vars[0])              # range(v, v + k): start and end share the variable
             self.vars[lv] = "int"
             self.loop_depth += 1
             self.loop_kind.append("for")
             body = self.block(d - 1)
+            for v in bound_vars:
+                upd = r.choice([("aug", v, "Add", ("num", 1)), ("aug", v, "Sub", ("num", 1)),
+                                ("assign", v, ("bin", "Sub", ("name", v), ("num", r.randint(1, 3)))),
+                                ("assign", v, ("bin", "Add", ("name", v), ("name", lv)))])
+                body.insert(r.randint(0, len(body)), upd)
             if r.random() < 0.15:
                 body.append(("assign", lv, self.iexpr(1)))               # assignment to the loop variable
                 self.features.add("assign-loop-variable")
@@ -596,6 +617,29 @@ def corpus_modules():
                 ("aug", "s", "Add", ("call", "f0", [N("a"), N("w")])),
                 ("if", ("cmp", "LtE", N("s"), ("bin", "Sub", K(0), K(50))), [("return", ("call", "ext", [N("s"), N("w")]))], [])]),
             ("return", N("s"))]}, ext=True)
+    # the end expression of range() is evaluated once, before the loop: the body assigns its variables
+    # (re-evaluating it every iteration shortens `range(a)` with `a -= 1` and never terminates for `range(a, a + b)` with `b += 1`)
+    mod({"name": "f0", "params": [("a", "int"), ("b", "int")], "ret": "int", "body": [
+        ("assign", "s", K(0)),
+        ("for", "i", [N("a")], [("assign", "a", ("bin", "Sub", N("a"), K(1))), ("aug", "s", "Add", K(1))]),
+        ("return", ("bin", "Add", ("bin", "Mult", N("s"), K(100)), N("a")))]},
+        {"name": "f1", "params": [("a", "int"), ("b", "int")], "ret": "int", "body": [
+            ("assign", "s", K(0)),
+            ("for", "i", [N("a"), ("bin", "Add", N("a"), N("b"))], [("aug", "b", "Add", K(1)), ("aug", "s", "Add", N("i"))]),
+            ("return", ("bin", "Add", ("bin", "Mult", N("s"), K(1000)), N("b")))]},
+        {"name": "f2", "params": [("a", "int"), ("b", "int")], "ret": "int", "body": [
+            ("assign", "s", K(0)), ("assign", "m", K(0)),
+            ("for", "i", [N("a")], [
+                ("assign", "m", ("bin", "Add", N("i"), K(2))),
+                ("for", "j", [N("m")], [("assign", "m", ("bin", "Sub", N("m"), K(1))), ("aug", "s", "Add", N("j")),
+                                        ("aug", "a", "Add", K(1))])]),
+            ("return", ("bin", "Add", ("bin", "Mult", N("s"), K(100)), ("bin", "Add", N("m"), N("a"))))]},
+        {"name": "f3", "params": [("a", "int"), ("b", "int")], "ret": "int", "body": [
+            ("assign", "s", K(0)), ("assign", "w", K(0)),
+            ("while", ("and", [("cmp", "Lt", N("w"), K(8)), ("or", [("cmp", "Gt", N("a"), K(0)), ("cmp", "Lt", N("s"), N("b"))])]), [
+                ("assign", "w", ("bin", "Add", N("w"), K(1))), ("aug", "a", "Sub", K(2)), ("aug", "s", "Add", K(3)),
+                ("if", ("cmp", "Eq", N("s"), K(9)), [("aug", "b", "Add", K(4))], [])]),
+            ("return", ("bin", "Add", ("bin", "Mult", N("s"), K(100)), N("w")))]})
     # floats
     mod({"name": "f0", "params": [("a", "float"), ("b", "float")], "ret": "float", "body": [
         ("assign", "x", ("bin", "Div", ("bin", "Add", N("a"), ("fnum", 1.5)), ("fnum", 4.0))),
@@ -617,6 +661,67 @@ def _silence():
     logging.getLogger("p2p").setLevel(logging.CRITICAL)
 
 
+class BudgetExceeded(Exception):
+    """compiled code (or the front-end) used more CPU time than any terminating case of this harness needs"""
+
+
+RUN_BUDGET_S = 3.0          # CPU seconds for one execution of compiled code (terminating cases need milliseconds)
+COMPILE_BUDGET_S = 30.0     # CPU seconds for one front-end call / one ir_to_python translation
+
+
+@contextlib.contextmanager
+def budget(cpu_s):
+    """Hard budget on in-process work: SIGVTALRM (process CPU time, so machine load does not matter) raises
+    BudgetExceeded inside the running Python code; outside the main thread a line-counting trace function is used."""
+    import signal
+    import sys
+    import threading
+    if threading.current_thread() is threading.main_thread():
+        def on_alarm(signum, frame):
+            raise BudgetExceeded()
+        old = signal.signal(signal.SIGVTALRM, on_alarm)
+        signal.setitimer(signal.ITIMER_VIRTUAL, cpu_s)
+        try:
+            yield
+        finally:
+            signal.setitimer(signal.ITIMER_VIRTUAL, 0)
+            signal.signal(signal.SIGVTALRM, old)
+    else:
+        left = [int(cpu_s * 2_000_000)]
+
+        def tracer(frame, event, arg):
+            left[0] -= 1
+            if left[0] < 0:
+                raise BudgetExceeded()
+            return tracer
+        old = sys.gettrace()
+        sys.settrace(tracer)
+        try:
+            yield
+        finally:
+            sys.settrace(old)
+
+
+def run_compiled(py, entry, args):
+    """one budgeted execution of compiled code by ppci's IR->Python backend; -> canonical string,
+    `exception <Name>`, or `does-not-terminate`"""
+    try:
+        with budget(RUN_BUDGET_S):
+            got = py.run(entry, args)
+    except BudgetExceeded:
+        got = "exception BudgetExceeded"
+    if got == "exception BudgetExceeded":
+        return "does-not-terminate"
+    return got
+
+
+def load_compiled(gobj):
+    """ir_to_python + exec of the emitted module, budgeted"""
+    from . import irrun
+    with budget(COMPILE_BUDGET_S):
+        return irrun.Ir2Py(gobj)
+
+
 def compile_real(src, ext, verify=True):
     """-> (module, None) | (None, exception).  verify=False skips irutils.verify_module (observation only)."""
     from ppci.lang.python import python2ir
@@ -629,7 +734,7 @@ def compile_real(src, ext, verify=True):
         real_irutils = python2ir.irutils
         python2ir.irutils = holder
     try:
-        with contextlib.redirect_stdout(io.StringIO()):
+        with contextlib.redirect_stdout(io.StringIO()), budget(COMPILE_BUDGET_S):
             m = python2ir.python_to_ir(io.StringIO(src), imports=imports)
         return m, None
     except Exception as e:  # noqa: BLE001 - the class is the observation
@@ -679,9 +784,12 @@ def cpython(m, fname, args):
         _CODE[id(m)] = codes
     try:
         exec(codes[1], ns)
-        ns[fname](*args)
+        with budget(RUN_BUDGET_S):
+            ns[fname](*args)
     except OutOfDomain as e:
         return ("skip", str(e))
+    except BudgetExceeded:
+        return ("skip", "cpython-budget")
     except RecursionError:
         return ("skip", "RecursionError")
     except Exception as e:  # noqa: BLE001
@@ -915,7 +1023,7 @@ class Batch:
         def one(name):
             parts = self.parts[name]
             lines = [l for ls, _ in parts for l in ls]
-            return ctx.driver(name, lines) if lines else []
+            return ctx.driver(name, lines, timeout=1200) if lines else []
         with concurrent.futures.ThreadPoolExecutor(2) as ex:
             futs = {n: ex.submit(one, n) for n in self.parts}
             reps = {n: f.result() for n, f in futs.items()}
@@ -951,7 +1059,9 @@ def run_programs(ctx, mods, spec_budget, batch):
             name = type(exc2).__name__
             ctx.count("compile_" + name)
             from ppci.common import CompilerError
-            if not isinstance(exc2, CompilerError):
+            if isinstance(exc2, BudgetExceeded):
+                ctx.fail("compile:does-not-terminate", f"python_to_ir did not finish within {COMPILE_BUDGET_S} CPU seconds", {"source": src, "module": m})
+            elif not isinstance(exc2, CompilerError):
                 where = ""
                 tb = exc2.__traceback__
                 while tb is not None:
@@ -980,7 +1090,7 @@ def run_programs(ctx, mods, spec_budget, batch):
         # ---- execution ------------------------------------------------------------------------------
         gobj = types.SimpleNamespace(module=mod2, externals=[("ext", [ir.i64, ir.i64], ir.i64)] if m["ext"] else [])
         try:
-            py = irrun.Ir2Py(gobj)
+            py = load_compiled(gobj)
         except Exception as e:  # noqa: BLE001
             ctx.fail(f"ir2py:cannot-load:{type(e).__name__}", f"ir_to_python output of the compiled module does not load: {e}"[:200], {"source": src})
             py = None
@@ -1001,13 +1111,17 @@ def run_programs(ctx, mods, spec_budget, batch):
                 if any(k in m["features"] for k in ("for", "while", "call", "import", "floordiv", "corpus")):
                     ctx.nontrivial(hash(key))
                 if py is not None:
-                    got = py.run(entry, args)
-                    if got.startswith("exception"):
+                    got = run_compiled(py, entry, args)
+                    if got == "does-not-terminate":
+                        ctx.fail("program:does-not-terminate",
+                                 f"{f['name']}{tuple(args)}: CPython returns {want}, the compiled code is still running after {RUN_BUDGET_S} CPU seconds "
+                                 f"(loop that does not terminate)", case, got=got, want=want)
+                    elif got.startswith("exception"):
                         ctx.fail("program:ir2py-exception", f"{f['name']}{tuple(args)}: CPython {want}, compiled code raised {got}", case, got=got, want=want)
                     elif canon_reply(got) != want:
                         ctx.fail("program:wrong-return-value", f"{f['name']}{tuple(args)}: CPython {want}, compiled code (ir2py) {canon_reply(got)}",
                                  case, got=canon_reply(got), want=want)
-                if steps_left > 0:
+                if steps_left > 0 and not (py is not None and got == "does-not-terminate"):
                     if not loaded:
                         ir_lines.append("load " + text); ir_meta.append(("load", src))
                         ir_lines.append("wf"); ir_meta.append(("wf", src))
@@ -1107,12 +1221,14 @@ def check_operators(ctx, batch):
             lines.append(f"arith {op} 1 1"); meta.append(("rejected", op, None, None))
             continue
         gobj = types.SimpleNamespace(module=mod, externals=[])
-        py = irrun.Ir2Py(gobj)
+        py = load_compiled(gobj)
         entry = types.SimpleNamespace(name="f", params=[ir.i64, ir.i64], ret=ir.i64)
         ir_lines.append("load " + irser.serialize(mod)); ir_meta.append(None)
         for k, (a, b) in enumerate(pairs):
             want = py_apply(op, a, b)
-            got = py.run(entry, [a, b])
+            got = run_compiled(py, entry, [a, b])
+            if got == "does-not-terminate":
+                got = "exception does-not-terminate"
             got = canon_reply(got).split(" ")[0][4:] if not got.startswith("exception") else got
             lines.append(f"arith {op} {a} {b}"); meta.append(("arith", op, (a, b), got))
             lines.append(f"pybinop {op} {a} {b}"); meta.append(("spec", op, (a, b), want))
@@ -1166,8 +1282,8 @@ def check_operators(ctx, batch):
     src = "def f(a: float, b: float) -> float:\n    return a // b\n"
     mod, exc = compile_real(src, False)
     if mod is not None:
-        py = irrun.Ir2Py(types.SimpleNamespace(module=mod, externals=[]))
-        got = py.run(types.SimpleNamespace(name="f", params=[ir.f64, ir.f64], ret=ir.f64), [7.0, 2.0])
+        py = load_compiled(types.SimpleNamespace(module=mod, externals=[]))
+        got = run_compiled(py, types.SimpleNamespace(name="f", params=[ir.f64, ir.f64], ret=ir.f64), [7.0, 2.0])
         if canon_reply(got) != canon_result(7.0 // 2.0, []):
             ctx.fail("binop:FloorDiv:float-operands-wrong-value", f"7.0 // 2.0: CPython 3.0, compiled code {canon_reply(got)}", {"source": src})
     else:
@@ -1208,7 +1324,7 @@ def check_comparisons(ctx, batch):
             if mod is None:
                 ctx.fail(f"compile:internal-error:{type(exc).__name__}:compare-{op}", f"comparison {sym} in {cname} does not compile: {exc}", {"source": src})
                 continue
-            py = irrun.Ir2Py(types.SimpleNamespace(module=mod, externals=[]))
+            py = load_compiled(types.SimpleNamespace(module=mod, externals=[]))
             entry = types.SimpleNamespace(name="f", params=[ir.i64, ir.i64], ret=ir.i64)
             ns = {}
             exec(src, ns)
@@ -1217,10 +1333,13 @@ def check_comparisons(ctx, batch):
                     if cname != "if" and cname != "or" and (abs(a) > 100 or abs(b) > 100):
                         continue                      # the loops add to a / b: stay away from the ends of the range
                     want = ns["f"](a, b)
-                    got = py.run(entry, [a, b])
+                    got = run_compiled(py, entry, [a, b])
                     ctx.count("eval_comparison")
                     ctx.nontrivial(("cmp", op, cname, a, b))
-                    if canon_reply(got) != f"ret={want} trace=-":
+                    if got == "does-not-terminate":
+                        ctx.fail(f"compare:{op}:{cname}:does-not-terminate", f"{cname} context, {a} {sym} {b}: CPython returns {want}, compiled code does not terminate",
+                                 {"source": src, "a": a, "b": b}, got=got, want=want)
+                    elif canon_reply(got) != f"ret={want} trace=-":
                         ctx.fail(f"compare:{op}:{cname}:wrong-truth-value", f"{cname} context, {a} {sym} {b}: CPython returns {want}, compiled code {canon_reply(got)}",
                                  {"source": src, "a": a, "b": b}, got=got, want=want)
         for cname, tmpl in CONST_CONTEXTS.items():
@@ -1232,7 +1351,7 @@ def check_comparisons(ctx, batch):
                 if mod is None:
                     ctx.fail(f"compile:internal-error:{type(exc).__name__}:compare-{op}", f"comparison {sym} in {cname} does not compile: {exc}", {"source": src})
                     continue
-                py = irrun.Ir2Py(types.SimpleNamespace(module=mod, externals=[]))
+                py = load_compiled(types.SimpleNamespace(module=mod, externals=[]))
                 entry = types.SimpleNamespace(name="f", params=[ir.i64, ir.i64], ret=ir.i64)
                 ns = {}
                 exec(src, ns)
@@ -1242,10 +1361,13 @@ def check_comparisons(ctx, batch):
                         if "while" in cname and abs(b) > (1 << 62):
                             continue                  # b + a must stay within 64 bits
                         want = ns["f"](a, b)
-                        got = py.run(entry, [a, b])
+                        got = run_compiled(py, entry, [a, b])
                         ctx.count("eval_comparison")
                         ctx.nontrivial(("cmp", op, cname, c, a, b))
-                        if canon_reply(got) != f"ret={want} trace=-":
+                        if got == "does-not-terminate":
+                            ctx.fail(f"compare:{op}:{cname}:does-not-terminate", f"{cname} context, constant {c}, b = {b}, a = {a}: CPython returns {want}, "
+                                     f"compiled code does not terminate", {"source": src, "a": a, "b": b}, got=got, want=want)
+                        elif canon_reply(got) != f"ret={want} trace=-":
                             ctx.fail(f"compare:{op}:{cname}:wrong-truth-value",
                                      f"{cname} context, constant {c}, b = {b}, a = {a}: CPython returns {want}, compiled code {canon_reply(got)}",
                                      {"source": src, "a": a, "b": b}, got=got, want=want)
